@@ -8,6 +8,10 @@ All theorems are about the model (`TgModel/Ide/Scope.lean`, `Context.lean`, `Ind
 -/
 import TgModel.Lemmas.IdeSemFresh
 import TgModel.Props.C03
+import TgModel.Props.C06RefStable
+import TgModel.Props.C13
+import TgModel.Props.C19
+import TgModel.Lemmas.IdeSemGoto
 
 namespace Tg.C05
 open Tg Tg.Ide Tg.Bodied
@@ -662,5 +666,545 @@ example : ∃ ws res, buildWorkspace exVfs "/w/a.td" none = .ok ws ∧ Index.ind
   | ok ws =>
     obtain ⟨res, hres⟩ := Tg.C03.index_never_panics _ _ _ ws hws
     exact ⟨ws, res, rfl, hres⟩
+
+
+section capstone
+open Tg.Ide.Handlers
+open Tg.SymbolMap (Op Loc run refsOf)
+
+/-! ## (5) the capstone: from a resolved use to go-to-definition / find-references -/
+
+/-- what the theorems of this section need of a workspace: consistent trees (`C03.Ready`) whose
+`Identifier` nodes begin with a non-empty token.  Every workspace built by `buildWorkspace` is good
+(`built_wsGood`); hand-built example workspaces are checked by evaluation. -/
+structure WsGood (ws : Workspace) : Prop where
+  ready : C03.Ready ws
+  ids : ∀ g, IdsNE (ws.tree g)
+
+theorem built_wsGood {vfs : List (String × String)} {rootPath : String} {includeDir : Option String}
+    {ws : Workspace} (hb : buildWorkspace vfs rootPath includeDir = .ok ws) : WsGood ws :=
+  ⟨C03.built_ready hb, fun g => (Index.built_wsOK (C03.built_ready hb).wf hb g).2⟩
+
+theorem analysis_goto (ws : Workspace) (res : Index.IndexResult) (hr : Index.index ws = .ok res) (file p : Nat) :
+    gotoDefinitionExec (Analysis.new ws) file p =
+      .ok (Tg.SymbolMap.gotoDef (run res.symbolMap.ops.toList) file p) := by
+  have hc := (Tg.C19.new_coherent ws res hr).1
+  unfold gotoDefinitionExec
+  have : (Analysis.new ws).index = .ok res := hr
+  rw [this, hc]
+  rfl
+
+theorem analysis_references (ws : Workspace) (res : Index.IndexResult) (hr : Index.index ws = .ok res) (file p : Nat) :
+    referencesExec (Analysis.new ws) file p =
+      .ok (Tg.SymbolMap.references (run res.symbolMap.ops.toList) file p) := by
+  have hc := (Tg.C19.new_coherent ws res hr).1
+  unfold referencesExec
+  have : (Analysis.new ws).index = .ok res := hr
+  rw [this, hc]
+  rfl
+
+/-- **a logged reference answers go-to-definition and find-references** (good workspaces - in particular every built one -, no
+hypothesis on the log): if the final hook log contains `reference gid loc` and `gid` is the
+allocation index of `S`, then from every offset inside `loc` go-to-definition answers the define
+location of `S`, and find-references answers the locations the log references `gid` at (in log
+order), `loc` among them -/
+theorem logged_reference_answers {ws : Workspace} (hw : WsGood ws) {res : Index.IndexResult}
+    (hr : Index.index ws = .ok res) (pre post : List Op) (gid : Nat) (loc : Loc)
+    (hops : res.symbolMap.ops.toList = pre ++ Op.reference gid loc :: post)
+    (S : SymbolId) (hS : res.symbolMap.gidToSym[gid]? = some S)
+    (p : Nat) (h1 : loc.start ≤ p) (h2 : p < loc.stop) :
+    gotoDefinitionExec (Analysis.new ws) loc.file p = .ok (some (symbolDefineLoc res.symbolMap S).toLoc) ∧
+    referencesExec (Analysis.new ws) loc.file p = .ok (some (refsOf res.symbolMap.ops.toList gid)) ∧
+    loc ∈ refsOf res.symbolMap.ops.toList gid := by
+  have hready := hw.ready
+  have hv := Tg.C06.index_refsValid hready hr
+  have hs := Tg.C06.index_refStable_of hready hw.ids hr
+  have hd := Tg.C06.index_disjointLocs hready hr
+  obtain ⟨hl, Sy, hSy, hmem⟩ := Tg.SymbolMap.reference_lookup _ hv hs hd pre post gid loc hops p h1 h2
+  have hrefs := Tg.SymbolMap.run_refs_eq _ hv gid Sy hSy
+  have hlog := index_logOK ws res hr
+  obtain ⟨_, Sy', hSy', hdef, _⟩ := hlog.sym gid S hS
+  have : Sy' = Sy := by rw [hSy] at hSy'; exact (Option.some.inj hSy').symm
+  subst this
+  refine ⟨?_, ?_, by rw [← hrefs]; exact hmem⟩
+  · rw [analysis_goto ws res hr]
+    simp [Tg.SymbolMap.gotoDef, Tg.SymbolMap.findSymbolAt, hl, hSy, hdef]
+  · rw [analysis_references ws res hr]
+    simp [Tg.SymbolMap.references, Tg.SymbolMap.findSymbolAt, hl, hSy, hrefs]
+
+
+/-- **any reference-producing site**: `c1` is the state right after the site has registered the
+reference (`add_reference(S, loc)` on the state `c`, in which `S` is a live symbol), and the final
+symbol map is a later stage of `c1` (`SmLater`: true of every state that the indexer reaches from
+`c1`, by `mkRec_later`).  Then on the final analysis go-to-definition from every offset of `loc`
+answers the declaring identifier of `S`, and find-references there answers exactly the locations the
+log references `S` at, `loc` among them. -/
+theorem site_reference_answers {ws : Workspace} (hw : WsGood ws) {res : Index.IndexResult}
+    (hr : Index.index ws = .ok res) (c : IndexCtx) (S : SymbolId) (loc : FileRange)
+    (hlive : c.symbolMap.gidToSym[c.symbolMap.gidOf S]? = some S)
+    (hlater : SmLater (c.symbolMap.addReference S loc) res.symbolMap)
+    (p : Nat) (h1 : loc.start ≤ p) (h2 : p < loc.stop) :
+    gotoDefinitionExec (Analysis.new ws) loc.file p = .ok (some (symbolDefineLoc res.symbolMap S).toLoc) ∧
+    referencesExec (Analysis.new ws) loc.file p =
+      .ok (some (refsOf res.symbolMap.ops.toList (c.symbolMap.gidOf S))) ∧
+    loc.toLoc ∈ refsOf res.symbolMap.ops.toList (c.symbolMap.gidOf S) := by
+  obtain ⟨more, hmore⟩ := hlater.ops
+  have hops : res.symbolMap.ops.toList =
+      c.symbolMap.ops.toList ++ Op.reference (c.symbolMap.gidOf S) loc.toLoc :: more := by
+    rw [hmore]; simp [SymMap.addReference]
+  have hS : res.symbolMap.gidToSym[c.symbolMap.gidOf S]? = some S := hlater.gids _ _ hlive
+  exact logged_reference_answers hw hr _ more _ loc.toLoc hops S hS p h1 h2
+
+/-- **A1 `use_goes_to_declaration`** (identifier values): while indexing a built workspace the
+identifier `id` of file `f` is indexed in the state `c`, `resolve_id` answers the live symbol `S`,
+and the index run continues from the resulting state `c'` to the final result.  Then on the final
+analysis, from every offset inside the identifier go-to-definition lands exactly on the declaring
+identifier of `S` (`symbolDefineLoc`, in `S`'s file), and find-references answers the uses of `S`,
+this one among them. -/
+theorem use_goes_to_declaration {ws : Workspace} (hw : WsGood ws) {res : Index.IndexResult}
+    (hr : Index.index ws = .ok res) (id : PTree) (c c' : IndexCtx) (t : Option Ty) (f : Nat) (rest : List Nat)
+    (hft : c.fileTrace = f :: rest) (name : String) (loc : FileRange) (hid : identOf f id = some (name, loc))
+    (S : SymbolId) (hres : Tg.C13.resolveName c name = some S)
+    (hlive : c.symbolMap.gidToSym[c.symbolMap.gidOf S]? = some S)
+    (hrun : (Index.indexIdentifierValue id).run c = .ok (t, c'))
+    (hlater : SmLater c'.symbolMap res.symbolMap)
+    (p : Nat) (h1 : loc.start ≤ p) (h2 : p < loc.stop) :
+    gotoDefinitionExec (Analysis.new ws) f p = .ok (some (symbolDefineLoc res.symbolMap S).toLoc) ∧
+    referencesExec (Analysis.new ws) f p = .ok (some (refsOf res.symbolMap.ops.toList (c.symbolMap.gidOf S))) ∧
+    loc.toLoc ∈ refsOf res.symbolMap.ops.toList (c.symbolMap.gidOf S) := by
+  have hlook := Tg.C13.identifier_lookup id c f rest hft name loc hid
+  rw [hres] at hlook
+  obtain ⟨t', ht'⟩ := hlook
+  rw [ht'] at hrun
+  cases hrun
+  have hfile : loc.file = f := by
+    unfold identOf at hid
+    split at hid
+    · cases hid
+    · split at hid
+      · cases hid
+      · cases hid; rfl
+  have := site_reference_answers hw hr c S loc hlive hlater p h1 h2
+  rw [hfile] at this
+  exact this
+
+
+theorem identOf_file {f : Nat} {id : PTree} {name : String} {loc : FileRange} (hid : identOf f id = some (name, loc)) :
+    loc.file = f := by
+  unfold identOf at hid
+  split at hid
+  · cases hid
+  · split at hid
+    · cases hid
+    · cases hid; rfl
+
+/-- **A2, type position** (`ClassId`): a class name that resolves -/
+theorem type_use_goes_to_declaration {ws : Workspace} (hw : WsGood ws) {res : Index.IndexResult}
+    (hr : Index.index ws = .ok res) (r : Rec) (n : PTree) (hk : n.kind = .ClassId) (c c' : IndexCtx) (t : Option Ty)
+    (f : Nat) (rest : List Nat) (hft : c.fileTrace = f :: rest)
+    (nameNode : PTree) (hnn : Ast.classIdName n = some nameNode)
+    (name : String) (loc : FileRange) (hid : identOf f nameNode = some (name, loc))
+    (classId : Nat) (hres : c.symbolMap.findClass name = some classId)
+    (hlive : c.symbolMap.gidToSym[c.symbolMap.gidOf (.record classId)]? = some (.record classId))
+    (hrun : (Index.indexType r n).run c = .ok (t, c')) (hlater : SmLater c'.symbolMap res.symbolMap)
+    (p : Nat) (h1 : loc.start ≤ p) (h2 : p < loc.stop) :
+    gotoDefinitionExec (Analysis.new ws) f p = .ok (some (res.symbolMap.record classId).defineLoc.toLoc) ∧
+    referencesExec (Analysis.new ws) f p =
+      .ok (some (refsOf res.symbolMap.ops.toList (c.symbolMap.gidOf (.record classId)))) ∧
+    loc.toLoc ∈ refsOf res.symbolMap.ops.toList (c.symbolMap.gidOf (.record classId)) := by
+  have hlook := Tg.C13.type_class_lookup r n hk c f rest hft nameNode hnn name loc hid
+  rw [hres] at hlook
+  rw [hlook] at hrun
+  cases hrun
+  have := site_reference_answers hw hr c (.record classId) loc hlive hlater p h1 h2
+  rw [identOf_file hid] at this
+  exact this
+
+section sub
+variable {r : Rec} (hv : ∀ n, Keeps AttrRel (r.value n)) (ht : ∀ n, Keeps AttrRel (r.typ n))
+  (hvl : ∀ n, Keeps LaterRel (r.value n)) (htl : ∀ n, Keeps LaterRel (r.typ n))
+include hv ht hvl htl
+
+theorem argValuesOf_later (l : Option PTree) : Keeps LaterRel (Tg.C13.argValuesOf r l) := by
+  unfold Tg.C13.argValuesOf
+  cases l with
+  | none => exact Keeps.pure _
+  | some l => exact Index.indexArgValueList_keeps hvl htl l
+
+theorem reportAll_symbolMap' (c : IndexCtx) (f : Nat) (rs : List Tg.C13.Report) :
+    (Tg.C13.reportAll c f rs).symbolMap = c.symbolMap := Tg.C13.reportAll_symbolMap c f rs
+
+/-- **A2, parent class list** (`resolve_class_ref_as_class`): a parent class that resolves -/
+theorem parent_class_use_goes_to_declaration {ws : Workspace} (hw : WsGood ws)
+    {res : Index.IndexResult} (hr : Index.index ws = .ok res) (classRef : PTree) (c c' : IndexCtx) (out : Option Nat)
+    (f : Nat) (rest : List Nat) (hft : c.fileTrace = f :: rest)
+    (nameNode : PTree) (hnn : Ast.classRefName classRef = some nameNode)
+    (name : String) (loc : FileRange) (hid : identOf f nameNode = some (name, loc))
+    (classId : Nat) (hres : c.symbolMap.findClass name = some classId)
+    (hlive : c.symbolMap.gidToSym[c.symbolMap.gidOf (.record classId)]? = some (.record classId))
+    (hrun : (Index.resolveClassRefAsClass r classRef).run c = .ok (out, c'))
+    (hlater : SmLater c'.symbolMap res.symbolMap)
+    (p : Nat) (h1 : loc.start ≤ p) (h2 : p < loc.stop) :
+    gotoDefinitionExec (Analysis.new ws) f p = .ok (some (res.symbolMap.record classId).defineLoc.toLoc) ∧
+    referencesExec (Analysis.new ws) f p =
+      .ok (some (refsOf res.symbolMap.ops.toList (c.symbolMap.gidOf (.record classId)))) ∧
+    loc.toLoc ∈ refsOf res.symbolMap.ops.toList (c.symbolMap.gidOf (.record classId)) := by
+  have hlook := Tg.C13.classRef_class_lookup hv ht classRef c f rest hft nameNode hnn name loc hid
+  rw [hres] at hlook
+  obtain ⟨_, avs, c2, rs, ha, _, hc'⟩ := hlook out c' hrun
+  have l12 : SmLater (c.symbolMap.addReference (.record classId) loc) c2.symbolMap :=
+    (argValuesOf_later hv ht hvl htl _).run _ _ _ ha
+  have l2 : SmLater c2.symbolMap c'.symbolMap := by
+    rw [hc', Tg.C13.reportAll_symbolMap]; exact SmLater.refl _
+  have := site_reference_answers hw hr c (.record classId) loc hlive ((l12.trans l2).trans hlater) p h1 h2
+  rw [identOf_file hid] at this
+  exact this
+
+/-- **A2, class value** `A<…>` -/
+theorem class_value_use_goes_to_declaration {ws : Workspace} (hw : WsGood ws)
+    {res : Index.IndexResult} (hr : Index.index ws = .ok res) (classValue : PTree) (c c' : IndexCtx) (out : Option Ty)
+    (f : Nat) (rest : List Nat) (hft : c.fileTrace = f :: rest)
+    (nameNode : PTree) (hnn : Ast.classValueName classValue = some nameNode)
+    (name : String) (loc : FileRange) (hid : identOf f nameNode = some (name, loc))
+    (classId : Nat) (hres : c.symbolMap.findClass name = some classId)
+    (hlive : c.symbolMap.gidToSym[c.symbolMap.gidOf (.record classId)]? = some (.record classId))
+    (hrun : (Index.indexClassValue r classValue).run c = .ok (out, c'))
+    (hlater : SmLater c'.symbolMap res.symbolMap)
+    (p : Nat) (h1 : loc.start ≤ p) (h2 : p < loc.stop) :
+    gotoDefinitionExec (Analysis.new ws) f p = .ok (some (res.symbolMap.record classId).defineLoc.toLoc) ∧
+    referencesExec (Analysis.new ws) f p =
+      .ok (some (refsOf res.symbolMap.ops.toList (c.symbolMap.gidOf (.record classId)))) ∧
+    loc.toLoc ∈ refsOf res.symbolMap.ops.toList (c.symbolMap.gidOf (.record classId)) := by
+  have hlook := Tg.C13.classValue_lookup hv ht classValue c f rest hft nameNode hnn name loc hid
+  rw [hres] at hlook
+  obtain ⟨_, avs, c2, rs, ha, _, hc'⟩ := hlook out c' hrun
+  have l12 : SmLater (c.symbolMap.addReference (.record classId) loc) c2.symbolMap :=
+    (argValuesOf_later hv ht hvl htl _).run _ _ _ ha
+  have l2 : SmLater c2.symbolMap c'.symbolMap := by
+    rw [hc', Tg.C13.reportAll_symbolMap]; exact SmLater.refl _
+  have := site_reference_answers hw hr c (.record classId) loc hlive ((l12.trans l2).trans hlater) p h1 h2
+  rw [identOf_file hid] at this
+  exact this
+
+/-- **A2, multiclass reference** (parents of a `multiclass` / `defm`) -/
+theorem multiclass_use_goes_to_declaration {ws : Workspace} (hw : WsGood ws)
+    {res : Index.IndexResult} (hr : Index.index ws = .ok res) (classRef : PTree) (c c' : IndexCtx) (out : Option Nat)
+    (f : Nat) (rest : List Nat) (hft : c.fileTrace = f :: rest)
+    (nameNode : PTree) (hnn : Ast.classRefName classRef = some nameNode)
+    (name : String) (loc : FileRange) (hid : identOf f nameNode = some (name, loc))
+    (mcId : Nat) (hres : c.symbolMap.findMulticlass name = some mcId)
+    (hlive : c.symbolMap.gidToSym[c.symbolMap.gidOf (.multiclass mcId)]? = some (.multiclass mcId))
+    (hrun : (Index.resolveClassRefAsMulticlass r classRef).run c = .ok (out, c'))
+    (hlater : SmLater c'.symbolMap res.symbolMap)
+    (p : Nat) (h1 : loc.start ≤ p) (h2 : p < loc.stop) :
+    gotoDefinitionExec (Analysis.new ws) f p = .ok (some (res.symbolMap.multiclass mcId).defineLoc.toLoc) ∧
+    referencesExec (Analysis.new ws) f p =
+      .ok (some (refsOf res.symbolMap.ops.toList (c.symbolMap.gidOf (.multiclass mcId)))) ∧
+    loc.toLoc ∈ refsOf res.symbolMap.ops.toList (c.symbolMap.gidOf (.multiclass mcId)) := by
+  have hlook := Tg.C13.classRef_multiclass_lookup hv ht classRef c f rest hft nameNode hnn name loc hid
+  rw [hres] at hlook
+  obtain ⟨_, avs, c2, rs, ha, _, hc'⟩ := hlook out c' hrun
+  have l12 : SmLater (c.symbolMap.addReference (.multiclass mcId) loc) c2.symbolMap :=
+    (argValuesOf_later hv ht hvl htl _).run _ _ _ ha
+  have l2 : SmLater c2.symbolMap c'.symbolMap := by
+    rw [hc', Tg.C13.reportAll_symbolMap]; exact SmLater.refl _
+  have := site_reference_answers hw hr c (.multiclass mcId) loc hlive ((l12.trans l2).trans hlater) p h1 h2
+  rw [identOf_file hid] at this
+  exact this
+
+end sub
+
+
+/-! ### find-references -/
+
+theorem mem_refsOf (ops : List Op) (g : Nat) (l : Loc) : l ∈ refsOf ops g ↔ Op.reference g l ∈ ops := by
+  unfold refsOf
+  rw [List.mem_filterMap]
+  constructor
+  · rintro ⟨o, ho, h⟩
+    cases o with
+    | reference s l' =>
+      simp only at h
+      split at h
+      · rename_i hs; cases h; subst hs; exact ho
+      · cases h
+    | define _ _ => cases h
+    | defineAnon _ _ => cases h
+  · intro h
+    exact ⟨_, h, by simp⟩
+
+/-- **find-references answers exactly the logged references of the symbol under the cursor**: if
+find-references answers `refs` at an offset of a built workspace, the position map has an entry
+`(L, gid)` under the cursor and `refs` is, in log order, the list of the locations `loc` with
+`reference gid loc` in the indexer's log -/
+theorem references_exact {ws : Workspace} (hw : WsGood ws) {res : Index.IndexResult}
+    (hr : Index.index ws = .ok res) (file p : Nat) (refs : List Loc)
+    (h : referencesExec (Analysis.new ws) file p = .ok (some refs)) :
+    ∃ L gid, Tg.SymbolMap.lookup (run res.symbolMap.ops.toList).pos file p = some (L, gid) ∧
+      refs = refsOf res.symbolMap.ops.toList gid ∧
+      ∀ l, l ∈ refs ↔ Op.reference gid l ∈ res.symbolMap.ops.toList := by
+  have hv := Tg.C06.index_refsValid hw.ready hr
+  rw [analysis_references ws res hr] at h
+  simp only [Tg.SymbolMap.references, Tg.SymbolMap.findSymbolAt, Except.ok.injEq] at h
+  cases hl : Tg.SymbolMap.lookup (run res.symbolMap.ops.toList).pos file p with
+  | none => rw [hl] at h; simp at h
+  | some e =>
+    obtain ⟨L, gid⟩ := e
+    rw [hl] at h
+    simp only [Option.map_eq_some_iff] at h
+    obtain ⟨Sy, hSy, rfl⟩ := h
+    have := Tg.SymbolMap.run_refs_eq _ hv gid Sy hSy
+    exact ⟨L, gid, rfl, this, fun l => by rw [this]; exact mem_refsOf _ _ _⟩
+
+theorem registrations_regLoc (post : List Op) (k : Nat) (e : Loc × Nat) (he : e ∈ Tg.SymbolMap.registrations post k) :
+    ∃ o ∈ post, regLoc o = some e.1 := by
+  induction post generalizing k with
+  | nil => simp [Tg.SymbolMap.registrations] at he
+  | cons o t ih =>
+    cases o with
+    | define n l =>
+      simp only [Tg.SymbolMap.registrations, List.mem_cons] at he
+      rcases he with rfl | he
+      · exact ⟨_, List.mem_cons_self, rfl⟩
+      · obtain ⟨o, ho, h⟩ := ih _ he; exact ⟨o, List.mem_cons_of_mem _ ho, h⟩
+    | defineAnon n l =>
+      simp only [Tg.SymbolMap.registrations] at he
+      obtain ⟨o, ho, h⟩ := ih _ he; exact ⟨o, List.mem_cons_of_mem _ ho, h⟩
+    | reference s l =>
+      simp only [Tg.SymbolMap.registrations, List.mem_cons] at he
+      rcases he with rfl | he
+      · exact ⟨_, List.mem_cons_self, rfl⟩
+      · obtain ⟨o, ho, h⟩ := ih _ he; exact ⟨o, List.mem_cons_of_mem _ ho, h⟩
+
+/-- **A3 `declaration_references_exact_partial`**: find-references at a declaration - the `define
+name d` of the log, allocating the index `gid` - answers exactly the locations `loc` with
+`reference gid loc` in the log (its uses, in log order).  *Partial*: the declaring identifier must
+not be registered again later (`hkept`).  That fails for exactly one construct: `let f = …;` in a
+record body **on an inherited field** declares the overriding field at the identifier `f` and
+immediately registers the same identifier as a reference to the overridden field; find-references
+there answers the uses of the overridden field, and the overriding field (to which later uses of `f`
+in that record resolve) cannot be reached from its own declaration.  (A `let` on a field that the
+record declares itself declares nothing: it only registers the reference.) -/
+theorem declaration_references_exact_partial {ws : Workspace} (hw : WsGood ws)
+    {res : Index.IndexResult} (hr : Index.index ws = .ok res) (pre post : List Op) (name : List Char) (d : Loc)
+    (hops : res.symbolMap.ops.toList = pre ++ Op.define name d :: post)
+    (hkept : ∀ o ∈ post, regLoc o ≠ some d)
+    (p : Nat) (h1 : d.start ≤ p) (h2 : p < d.stop) :
+    referencesExec (Analysis.new ws) d.file p =
+      .ok (some (refsOf res.symbolMap.ops.toList (run pre).syms.length)) ∧
+    (∀ l, l ∈ refsOf res.symbolMap.ops.toList (run pre).syms.length ↔
+      Op.reference (run pre).syms.length l ∈ res.symbolMap.ops.toList) ∧
+    gotoDefinitionExec (Analysis.new ws) d.file p = .ok (some d) := by
+  have hready := hw.ready
+  have hv := Tg.C06.index_refsValid hready hr
+  have hd := Tg.C06.index_disjointLocs hready hr
+  have hne : d.isEmpty = false := by
+    simp only [Tg.SymbolMap.Loc.isEmpty, decide_eq_false_iff_not, Nat.not_le]; omega
+  obtain ⟨Sy, hSy, _, hdef⟩ := Tg.SymbolMap.define_sym_final pre post name d
+  rw [← hops] at hSy
+  have hpos : (d, (run pre).syms.length) ∈ (run res.symbolMap.ops.toList).pos := by
+    rw [hops, Tg.SymbolMap.run_split]
+    apply Tg.SymbolMap.foldl_keep
+    · simp only [Tg.SymbolMap.step]
+      unfold Tg.SymbolMap.addPos
+      rw [hne]
+      exact Tg.SymbolMap.mem_insertPos_self _ _ _
+    · intro e he hed
+      obtain ⟨o, ho, hreg⟩ := registrations_regLoc _ _ e he
+      rw [hed] at hreg
+      exact absurd hreg (hkept o ho)
+  have ho : Tg.SymbolMap.overlaps d d.file p = true := by simp [Tg.SymbolMap.overlaps, h1, h2]
+  have hl := Tg.SymbolMap.lookup_of_mem _ hd d.file p _ hpos ho
+  have hrefs := Tg.SymbolMap.run_refs_eq _ hv _ Sy hSy
+  refine ⟨?_, fun l => mem_refsOf _ _ _, ?_⟩
+  · rw [analysis_references ws res hr]
+    simp [Tg.SymbolMap.references, Tg.SymbolMap.findSymbolAt, hl, hSy, hrefs]
+  · rw [analysis_goto ws res hr]
+    simp [Tg.SymbolMap.gotoDef, Tg.SymbolMap.findSymbolAt, hl, hSy, hdef]
+
+
+/-! ### establishing the mid-run hypotheses
+
+`SmLater c'.symbolMap res.symbolMap` ("the index run continues from `c'` to the final result") holds
+between the end state of any sub-run and the final result, because every indexer function keeps
+`LaterRel` (`mkRec_later`).  For the statements of the root file: -/
+
+theorem root_statement_midrun (ws : Workspace) (res : Index.IndexResult) (hr : Index.index ws = .ok res)
+    (sf sl : PTree) (hsf : Ast.sourceFileCast (ws.tree ws.root) = some sf)
+    (hsl : Ast.sourceFileStatementList sf = some sl) (pre : List PTree) (s : PTree) (post : List PTree)
+    (hsplit : Ast.statementListStatements sl = pre ++ s :: post) :
+    ∃ fuel c c', (Index.indexStatement (Index.mkRec fuel) s).run c = .ok ((), c') ∧
+      c.fileTrace = [ws.root] ∧ LogOK c.symbolMap ∧ SmLater c'.symbolMap res.symbolMap := by
+  unfold Index.index at hr
+  rw [hsf] at hr
+  simp only at hr
+  obtain ⟨j, hj⟩ : ∃ j, ws.depthBound = j + 3 := ⟨ws.depthBound - 3, by have := depthBound_ge ws; omega⟩
+  rw [hj] at hr
+  split at hr
+  · cases hr
+  · rename_i u ctx hrun
+    cases hr
+    have hrun' : (Index.indexStatementList (Index.mkRec (j + 2)) sl).run (IndexCtx.new ws) = .ok (u, ctx) := by
+      have : Index.indexSourceFile (Index.mkRec (j + 3)) sf = Index.indexStatementList (Index.mkRec (j + 2)) sl := by
+        unfold Index.indexSourceFile
+        rw [hsl]
+        rfl
+      rw [this] at hrun
+      exact hrun
+    unfold Index.indexStatementList at hrun'
+    rw [hsplit] at hrun'
+    obtain ⟨u', c'', hloop, hpure⟩ := IxM.run_bind_ok hrun'
+    simp only [StateT.run_pure] at hpure
+    cases hpure
+    have hsplitrun := Tg.C13.forIn_unit_split _ pre s post (IndexCtx.new ws) ctx _ ?_ hloop
+    · obtain ⟨c1, c2, i1, i2, i3⟩ := hsplitrun
+      obtain ⟨_, c2', j1, j2⟩ := IxM.run_bind_ok i2
+      simp only [StateT.run_pure] at j2
+      cases j2
+      obtain ⟨hvl, htl, hsll, hsfl⟩ := mkRec_later (j + 2)
+      obtain ⟨hva, hta, hsla, hsfa⟩ := mkRec_attr (j + 2)
+      obtain ⟨hvg, htg, hslg, hsfg⟩ := mkRec_keeps (R := LogRel) (j + 2)
+      have r3 : LaterRel c2 ctx := (?_ : Keeps LaterRel _).run _ _ _ i3
+      have r1a : AttrRel (IndexCtx.new ws) c1 := (?_ : Keeps AttrRel _).run _ _ _ i1
+      have r1g : LogRel (IndexCtx.new ws) c1 := (?_ : Keeps LogRel _).run _ _ _ i1
+      · exact ⟨j + 2, c1, c2, j1, r1a.trace, r1g LogOK.empty, r3⟩
+      · keeps
+      · keeps
+      · keeps
+    · intro x cx st cy h
+      obtain ⟨_, _, _, j3⟩ := IxM.run_bind_ok h
+      simp only [StateT.run_pure] at j3; cases j3; rfl
+
+
+/-! ### non-vacuity of section (5)
+
+Name lookups of the model go through `Std.HashMap String _`, and `String.hash` is opaque to the
+kernel: an index run that resolves an identifier, class or def *by name* cannot be evaluated by
+`decide +kernel`.  The examples therefore use the one reference-producing site that needs no hash
+lookup - `let f = …;` in a record body on a field the record declares itself (`recordFindField` walks
+the `IndexMap` arrays) - on the real index run of `def d { int f = 1; let f = 2; }`, and a built
+two-file workspace for the workspace hypotheses. -/
+
+/-- `o = some (.recordField 0)`, as a Boolean -/
+def isField0 (o : Option SymbolId) : Bool := match o with | some (.recordField 0) => true | _ => false
+theorem isField0_eq {o : Option SymbolId} (h : isField0 o = true) : o = some (.recordField 0) := by
+  unfold isField0 at h
+  split at h
+  · rfl
+  · cases h
+
+def gInput : List Char := "def d { int f = 1; let f = 2; }".toList
+
+def gTree : Tree :=
+  match Grammar.parse gInput with
+  | .ok r => r.tree
+  | _ => .node .SourceFile []
+
+theorem gTree_shape : shapeCheck (PTree.ofTree gTree) = true := by decide +kernel
+
+/-- the log of the run: `d`, `f`, and the reference from the `let` to the field `f` (which the record
+declares itself, so no new field is declared) -/
+def gOps : List Op := [.define ['d'] ⟨0, 4, 5⟩, .define ['f'] ⟨0, 12, 13⟩, .reference 1 ⟨0, 23, 24⟩]
+
+theorem g_index : ∃ r, Index.index (wsOfTree gTree) = .ok r ∧ r.symbolMap.ops.toList = gOps := by
+  have hk : (match Index.index (wsOfTree gTree) with
+      | .ok r => opsBeq r.symbolMap.ops.toList gOps
+      | .error _ => false) = true := by decide +kernel
+  cases hr : Index.index (wsOfTree gTree) with
+  | error e => rw [hr] at hk; cases hk
+  | ok r => rw [hr] at hk; exact ⟨r, rfl, opsBeq_eq hk⟩
+
+theorem ex_wsGood : WsGood (wsOfTree gTree) := by
+  refine ⟨⟨(wsOfTree_wf gTree_shape).1, (wsOfTree_wf gTree_shape).2.1⟩, ?_⟩
+  have hid : gTree.idOK := by
+    unfold gTree
+    split
+    · rename_i r hr; exact parse_idOK hr
+    · simp
+  intro g
+  unfold Workspace.tree
+  cases g with
+  | zero => simpa [wsOfTree] using idsNE_ofTree hid
+  | succ g => simpa [wsOfTree] using defaultTree_idsNE
+
+/-- `logged_reference_answers` on the real run: from the `f` of `let f` (offsets 23..24) go-to-definition
+answers the declaration `int f` at 12..13 and find-references answers `[23..24]` -/
+example : gotoDefinitionExec (Analysis.new (wsOfTree gTree)) 0 23 = .ok (some ⟨0, 12, 13⟩) ∧
+    referencesExec (Analysis.new (wsOfTree gTree)) 0 23 = .ok (some [⟨0, 23, 24⟩]) := by
+  obtain ⟨r, hr, ho'⟩ := g_index
+  have hfacts : (match Index.index (wsOfTree gTree) with
+      | .ok r => isField0 r.symbolMap.gidToSym[1]? &&
+          ((r.symbolMap.recordField 0).defineLoc.file == 0 && (r.symbolMap.recordField 0).defineLoc.start == 12 &&
+            (r.symbolMap.recordField 0).defineLoc.stop == 13)
+      | .error _ => false) = true := by decide +kernel
+  rw [hr] at hfacts
+  simp only [Bool.and_eq_true, beq_iff_eq] at hfacts
+  have := logged_reference_answers ex_wsGood hr
+    [.define ['d'] ⟨0, 4, 5⟩, .define ['f'] ⟨0, 12, 13⟩] [] 1 ⟨0, 23, 24⟩
+    (by rw [ho']; rfl) (.recordField 0) (isField0_eq hfacts.1) 23 (by decide) (by decide)
+  rw [ho'] at this
+  obtain ⟨h1, h2, _⟩ := this
+  refine ⟨?_, ?_⟩
+  · rw [h1]
+    simp only [symbolDefineLoc, FileRange.toLoc, hfacts.2.1.1, hfacts.2.1.2, hfacts.2.2]
+  · rw [h2]; rfl
+
+/-- `declaration_references_exact_partial` on the same run: find-references at the declaration
+`int f` (12..13) answers exactly the logged references of symbol 1 -/
+example : referencesExec (Analysis.new (wsOfTree gTree)) 0 12 = .ok (some [⟨0, 23, 24⟩]) := by
+  obtain ⟨r, hr, ho'⟩ := g_index
+  have := declaration_references_exact_partial ex_wsGood hr [.define ['d'] ⟨0, 4, 5⟩]
+    [.reference 1 ⟨0, 23, 24⟩] ['f'] ⟨0, 12, 13⟩ (by rw [ho']; rfl)
+    (by intro o ho; simp only [List.mem_cons, List.not_mem_nil, or_false] at ho
+        subst ho; simp [regLoc]) 12 (by decide) (by decide)
+  rw [ho'] at this
+  rw [this.1]; rfl
+
+/-- `site_reference_answers` on the same run, with the symbol map the run has right before the `let`
+registers its reference (the final map without its last log entry) -/
+example : ∃ (res : Index.IndexResult) (c : IndexCtx), Index.index (wsOfTree gTree) = .ok res ∧
+    c.symbolMap.gidToSym[c.symbolMap.gidOf (.recordField 0)]? = some (.recordField 0) ∧
+    SmLater (c.symbolMap.addReference (.recordField 0) ⟨0, 23, 24⟩) res.symbolMap ∧
+    gotoDefinitionExec (Analysis.new (wsOfTree gTree)) 0 23 =
+      .ok (some (symbolDefineLoc res.symbolMap (.recordField 0)).toLoc) := by
+  obtain ⟨r, hr, ho'⟩ := g_index
+  have hfacts : (match Index.index (wsOfTree gTree) with
+      | .ok r => isField0 r.symbolMap.gidToSym[r.symbolMap.recordFieldGid[0]!]? &&
+          r.symbolMap.recordFieldGid[0]! == 1
+      | .error _ => false) = true := by decide +kernel
+  rw [hr] at hfacts
+  simp only [Bool.and_eq_true, beq_iff_eq] at hfacts
+  let c : IndexCtx := { IndexCtx.new (wsOfTree gTree) with
+    symbolMap := { r.symbolMap with ops := r.symbolMap.ops.pop } }
+  have hlive : c.symbolMap.gidToSym[c.symbolMap.gidOf (.recordField 0)]? = some (.recordField 0) := isField0_eq hfacts.1
+  have heq : c.symbolMap.addReference (.recordField 0) ⟨0, 23, 24⟩ = r.symbolMap := by
+    have hops : (r.symbolMap.ops.pop.push (Op.reference 1 ⟨0, 23, 24⟩)) = r.symbolMap.ops := by
+      apply Array.toList_inj.1
+      rw [ho']
+      simp [ho', gOps]
+    have hg : c.symbolMap.gidOf (.recordField 0) = 1 := hfacts.2
+    unfold SymMap.addReference
+    rw [hg]
+    show ({ r.symbolMap with ops := (r.symbolMap.ops.pop).push (Op.reference 1 ⟨0, 23, 24⟩) } : SymMap) = r.symbolMap
+    rw [hops]
+  have hlater : SmLater (c.symbolMap.addReference (.recordField 0) ⟨0, 23, 24⟩) r.symbolMap := by
+    rw [heq]; exact SmLater.refl _
+  exact ⟨r, c, hr, hlive, hlater,
+    (site_reference_answers ex_wsGood hr c (.recordField 0) ⟨0, 23, 24⟩ hlive hlater 23 (by decide) (by decide)).1⟩
+
+/-- the workspace hypothesis on a built two-file workspace (an include), and `root_statement_midrun`
+for its second root statement -/
+example : ∃ ws res, buildWorkspace [("/w/a.td", "include \"b.td\"\nclass A;"), ("/w/b.td", "def x;")] "/w/a.td" none = .ok ws ∧
+    Index.index ws = .ok res ∧ WsGood ws := by
+  have hk : C03.isOk (buildWorkspace [("/w/a.td", "include \"b.td\"\nclass A;"), ("/w/b.td", "def x;")]
+      "/w/a.td" none) = true := by decide +kernel
+  cases hb : buildWorkspace [("/w/a.td", "include \"b.td\"\nclass A;"), ("/w/b.td", "def x;")] "/w/a.td" none with
+  | error e => rw [hb] at hk; cases hk
+  | ok ws =>
+    obtain ⟨r, hr⟩ := C03.index_never_panics _ _ _ ws hb
+    exact ⟨ws, r, rfl, hr, built_wsGood hb⟩
+
+
+end capstone
 
 end Tg.C05
